@@ -7,7 +7,7 @@ from common import *
 SYMX_DIR = os.path.join(VERIF, "symx")
 TARGET = os.path.join(BUILD, "symx")
 BIN = os.path.join(TARGET, "release", "symx")
-S_PROPS = {"C01", "C02", "C03", "C05", "C06", "C07", "C08", "C09", "C10", "C11", "C12", "C13", "C14", "C15", "C16"}
+S_PROPS = {"C01", "C02", "C03", "C05", "C06", "C07", "C08", "C09", "C10", "C11", "C12", "C13", "C14", "C15", "C16", "C18"}
 _built = False
 
 
